@@ -355,6 +355,8 @@ def build(spec, run, plain=None, reuse_sm=None):
 
     bounds = np.array(spec["bounds"], dtype=float)
     nlev = len(spec["levels"])
+    # optional: a box of its own per level (monitor-only slices: the model and the box monitors read spec["bounds"])
+    level_bounds = [np.array(b, dtype=float) for b in spec["level_bounds"]] if spec.get("level_bounds") else [bounds] * nlev
     recs, probs, fps = [], [], []
     precision_problem = None
 
@@ -366,7 +368,7 @@ def build(spec, run, plain=None, reuse_sm=None):
         else:
             r = CountingObjective(spec, level)
             fn = r if plain == "callable" else (lambda x, _r=r: _r(x))
-        fp = P.FunctionProblem(fn, bounds=bounds, maximize=spec["maximize"], use_cache=bool(spec.get("use_cache")))
+        fp = P.FunctionProblem(fn, bounds=level_bounds[level], maximize=spec["maximize"], use_cache=bool(spec.get("use_cache")))
         p = fp
         if spec.get("cutoff"):
             p = P.EvalCutoffProblem(p, spec["cutoff"])
@@ -1018,6 +1020,9 @@ def monitored_run(spec, pids):
         cb_g.append(M.make_c03_consult(holder))
     if "C08" in pids:
         cb_g.append(M.make_c08_consult(h8))
+    h6 = {"run": None, "stops": []}
+    if "C06" in pids:
+        cb_g.append(M.make_c06_consult(h6))
     if "C04" in pids:
         cb_b.append(M.c04_boundary(s4))
     if "C09" in pids:
@@ -1038,6 +1043,7 @@ def monitored_run(spec, pids):
     run = Run(copy.deepcopy(spec))
     holder["run"] = run
     h8["run"] = run
+    h6["run"] = run
     cma_log = None
     if "C11" in pids:
         with M.cma_protocol() as cma_log:
@@ -1058,7 +1064,7 @@ def monitored_run(spec, pids):
     if "C05" in pids:
         res["C05"] = M.c05(run)
     if "C06" in pids:
-        res["C06"] = [v for v in M.c06(run) if v["signature"].startswith("C06")]
+        res["C06"] = [v for v in M.c06(run) if v["signature"].startswith("C06")] + M.c06_cma_stops(run, h6["stops"])
     if "C07" in pids:
         res["C07"] = M.c07(run)
     if "C08" in pids:
